@@ -7862,6 +7862,12 @@ eval_name_test_try_compile_predicate_append(const struct lyxp_expr *exp, uint32_
     LY_CHECK_GOTO(rc = lyxp_eval(set->ctx, val_exp, set->cur_mod, set->format, set->prefix_data, set->cur_node,
             ctx_node, set->tree, NULL, &set2, 0), cleanup);
 
+    if ((set2.type != LYXP_SET_STRING) && (set2.type != LYXP_SET_NODE_SET)) {
+        /* numbers and booleans are not compared with the key as strings */
+        rc = LY_ENOT;
+        goto cleanup;
+    }
+
     /* cast it into a string */
     LY_CHECK_GOTO(rc = lyxp_set_cast(&set2, LYXP_SET_STRING), cleanup);
 
